@@ -260,7 +260,7 @@ def gen_alias_model(rng, affine=False):
     val = {"time": dy(rng, 0, 3)}
     decl, eqs, ieqs, kinds = [], [], [], {"alias_graph": 1}
     anchors = []
-    for i in range(rng.randint(0, 2)):
+    for i in range(rng.randint(1 if affine else 0, 2)):
         n = "p%d" % (i + 1)
         val[n] = dy(rng, nonzero=True)
         if rng.random() < 0.3:
@@ -298,10 +298,33 @@ def gen_alias_model(rng, affine=False):
             eqs.append(rng.choice(["%s = %s", "%s - %s = 0"]) % (n, num(v)))
             val[n] = v
             kinds["const_assign"] = kinds.get("const_assign", 0) + 1
-        elif k < 0.2 and (defined or anchors):
+        elif k < (0.5 if affine else 0.2) and (defined or anchors):
             if affine:
-                w, c = rng.choice(defined + anchors), dy(rng, nonzero=True)
-                text, v = "%s * %s" % (num(c), w), c * val[w]
+                # affine in the unknowns/states/inputs; the COEFFICIENT is a number, a parameter, a
+                # constant or a product of them (stays symbolic unless a replace_* option is on)
+                pcs = [a for a in anchors if a[0] in "pc"]
+                xs = [a for a in defined + anchors if a[0] not in "pc"] or defined + anchors
+                w = rng.choice(xs)
+                kk = rng.random()
+                if pcs and kk < 0.75:
+                    fac = [rng.choice(pcs)]
+                    if rng.random() < 0.4:
+                        fac.append(rng.choice(pcs))
+                    if rng.random() < 0.3:
+                        fac.insert(0, num(dy(rng, nonzero=True)))
+                    cv = F(1)
+                    for f in fac:
+                        cv *= val[f] if f in val else F(float(f.strip("()")))
+                    ctext = " * ".join(fac)
+                    kinds["symbolic_coefficient"] = kinds.get("symbolic_coefficient", 0) + 1
+                else:
+                    cv = dy(rng, nonzero=True)
+                    ctext = num(cv)
+                if rng.random() < 0.5:
+                    text = "%s * %s" % (ctext, w)
+                else:
+                    text = "%s * %s" % (w, ctext)
+                v = cv * val[w]
             else:
                 text, v, _ = gen_expr(rng, defined + anchors, val, allow_time=False, maxterms=2)
             eqs.append("%s = %s + 1.0" % (n, text))
@@ -736,12 +759,17 @@ def build_cases(ctx):
         extra.append(make_case(rng, mdl, o))
     # oracle-only: reduce_affine_expression on affine models (its precondition), with and without
     # initial equations, combined with the value-replacement and alias options
-    for _ in range(ctx.scaled(14, 100)):
+    for i in range(ctx.scaled(24, 200)):
         mdl = gen_alias_model(rng, affine=True)
-        o = gen_alias_options(rng)
-        o["detect_aliases"] = rng.random() < 0.5
-        o["iterative_simplification"] = False
-        o["reduce_affine_expression"] = True
+        if i % 3 == 0:
+            o = {"reduce_affine_expression": True}                    # alone: everything stays symbolic
+        else:
+            o = gen_alias_options(rng)
+            o["detect_aliases"] = rng.random() < 0.5
+            o["iterative_simplification"] = False
+            o["replace_parameter_values"] = rng.random() < 0.4
+            o["replace_constant_values"] = rng.random() < 0.4
+            o["reduce_affine_expression"] = True
         extra.append(make_case(rng, mdl, o))
     # oracle-only: contradictory alias pairs (a = b; a = -b: both zero).  Not in the correspondence:
     # the model mirrors fixes/C14_contradictory_alias_keeps_equation.diff
@@ -855,7 +883,7 @@ def shared_run(ctx, judge, pid):
     ctx.notes["claimed_option_set"] = {"modelled": MODELLED_BOOL + ["eliminable_variable_expression"],
                                        "oracle_only": ["resolve_parameter_values", "expand_vectors (scalar models)",
                                                        "factor_and_simplify_equations",
-                                                       "reduce_affine_expression (affine models)"],
+                                                       "reduce_affine_expression (affine models, coefficients = products of symbolic parameters/constants)"],
                                        "excluded": ["expand_vectors on arrays",
                                                     "if_else shapes of eliminable assignments",
                                                     "eliminable differentiated states", "delay arguments"]}
